@@ -15,7 +15,7 @@ from . import env
 
 NUMF = ("x", "y", "z")
 SELF = ("p", "r")
-FLAVOURS = ("lambda", "def", "str", "named", "cached", "namedcached", "lamdef", "factory", "kwonly")
+FLAVOURS = ("lambda", "def", "str", "named", "cached", "namedcached", "lamdef", "factory", "kwonly", "namedempty")
 LEAF_Q = ("Sum", "Average", "Deviate", "Minimize", "Maximize")
 BINNERS = ("Bin", "SparselyBin", "CentrallyBin", "IrregularlyBin", "Categorize")
 COLLECTIONS = ("Label", "UntypedLabel", "Index", "Branch")
@@ -55,6 +55,8 @@ def qname(node, force=None):
         return "q_" + node["f"]
     if fl == "str":
         return _expr(node)
+    if fl == "namedempty":
+        return ""
     return "n_" + node["f"]
 
 
@@ -134,6 +136,8 @@ def make_quantity(node, force=None):
         return f
     if fl == "named":
         return named("n_" + node["f"], f)
+    if fl == "namedempty":
+        return named("", f)  # the empty string is a name like any other (falsy, though)
     if fl == "cached":
         return cached(f)
     if fl == "namedcached":
@@ -714,7 +718,7 @@ def retype_value(rng, v):
     if isinstance(v, bool):
         return v  # numpy.bool_ is not a number (numbers.Real): the library rejects it by design, see DESIGN 5.3
     if isinstance(v, int):
-        return rng.choice([v, np.int64(v), np.int32(v)] + ([np.uint8(v)] if 0 <= v < 256 else []))
+        return rng.choice([v, np.int64(v), np.int32(v)])
     if not isinstance(v, float):
         return v
     if v != v:
@@ -725,11 +729,11 @@ def retype_value(rng, v):
         return np.float64(v)
     c = [np.float64(v)]
     if v.is_integer() and abs(v) < 2**31 and not (v == 0 and math.copysign(1.0, v) < 0):
-        c += [int(v), np.int64(int(v)), np.int32(int(v))]
-        if 0 <= v < 256:
-            c.append(np.uint8(int(v)))
-        if 0 <= v < 2**16:
-            c.append(np.uint16(int(v)))
+        c += [int(v), np.int64(int(v))]
+        if abs(v) < 2**24:
+            # narrow integer types only where value * weight cannot wrap around (uint8(100) * 4 is 144 by numpy's
+            # own promotion rules - the arithmetic of the type, not of the library); no unsigned types for that reason
+            c.append(np.int32(int(v)))
     return rng.choice(c)
 
 
